@@ -64,7 +64,7 @@ func c14Gen(seed uint64, run int, tier string) *Case {
 					off--
 				}
 				cnt := r.Pick(0, 1, eff-1, eff, eff+1, 2*eff, 3*eff+1, r.Intn(3*eff+1))
-				kind := []string{"cread", "cwrite", "fread", "fwrite", "readat", "writeat", "readn", "written", "seqread"}[r.Intn(9)]
+				kind := []string{"cread", "cwrite", "fread", "fwrite", "readat", "writeat", "readn", "written", "seqread", "tagread"}[r.Intn(10)]
 				if (kind == "cread" || kind == "readat" || kind == "readn") && r.Pct(12) {
 					// far beyond the end of any file here, beyond 32 bits: no data
 					off = r.Pick(1<<32, 1<<32+1, 1<<32+flen/2, 1<<40)
@@ -258,6 +258,33 @@ func c14Caller(x *Ctx, u *UfsSys, clnt *go9p.Clnt, ci int, ops []Op) {
 			if off+n == len(f.model) && n > 0 {
 				x.Probe("read-ending-exactly-at-eof")
 			}
+		case "tagread":
+			// three consecutive chunks read through the pipelined Tag interface, all in flight together
+			if cnt <= 0 || cnt > io32 || off > 1<<31 {
+				cnt = minInt(maxInt(cnt, 1), io32)
+				off = minInt(off, 1<<20)
+			}
+			ch := make(chan *go9p.Req, 3)
+			tag := clnt.TagAlloc(ch)
+			pending := 0
+			for k := 0; k < 3; k++ {
+				if err := tag.Read(f.fid, uint64(off+k*cnt), uint32(cnt)); err != nil {
+					viol("e2-read", "Tag.Read(%q, off=%d, count=%d) could not be issued: %v", f.name, off+k*cnt, cnt, err)
+				} else {
+					pending++
+				}
+			}
+			for ; pending > 0; pending-- {
+				r := <-ch
+				if r.Err != nil || r.Rc == nil {
+					viol("e2-read", "pipelined Tag.Read(%q, off=%d) failed: %v", f.name, r.Tc.Offset, r.Err)
+				} else if w := want(int(r.Tc.Offset), cnt); !bytes.Equal(r.Rc.Data, w) {
+					viol("e2-read", "pipelined Tag.Read(%q, off=%d, count=%d) returned %d bytes, want the %d bytes of the file at that offset", f.name, r.Tc.Offset, cnt, len(r.Rc.Data), len(w))
+				}
+				tag.ReqFree(r)
+			}
+			clnt.TagFree(tag)
+			x.Probe("pipelined-tag-reads")
 		case "cwrite":
 			data := pattern(cnt, uint64(ci), uint64(off), uint64(len(f.model)))
 			n, err := clnt.Write(f.fid, data, uint64(off))
